@@ -42,6 +42,7 @@ def h_sub(a, b=5):
 
 
 h_lam = lambda a: a * 2  # noqa: E731
+h_la, h_lb = (lambda j: j * 2), (lambda j: j * 5)  # noqa: E731
 
 
 def h_nest(a):
